@@ -277,6 +277,28 @@ def _world_and_doms(rng, nv, quick, cover_p=0.3):
     return W, doms
 
 
+def _partial_binding_programs(run, rng, quick, qc, add):
+    """Grammar G3w: and_/or_ trees of four distinct leaves over the variable sets {1,2}, {1,3}, {1}, {1,3}.  Returns the
+    programs for the caller's ordinary worlds; the conjunctions of two disjunctions are handed to `add` on worlds over two
+    int values with domains of three and more members as well: there the conjunction's cache receives results under a
+    partial binding (variable 3 unbound) between results under full bindings, and which of them a later lookup matches
+    depends on the enumeration order of the data."""
+    part = run.export("GenQuery", "G3w-bfs", "PROG", constants=dict(G="G3w", NV=3, LeafLimit=4, MaxLeaves=4, MaxNot=0,
+                                                                  NeedNot=False), invariants=("Export", "WellFormed"))
+    shaped = [p for p in part if p["cond"]["k"] == "and" and p["cond"]["l"]["k"] == "or" and p["cond"]["r"]["k"] == "or"]
+    for p in shaped:
+        # a row returned twice shows only where every variable is selected
+        for _ in range((30 if quick else 120) if len(p["sel"]) == 3 else (4 if quick else 20)):
+            W = datasets.random_world(rng, rng.randint(5, 8))
+            for o in W["objs"]:
+                o["f"]["n"], o["f"]["m"] = datasets.iv(rng.choice((0, 1))), datasets.iv(rng.choice((0, 1)))
+            n = len(W["objs"])
+            doms = [rng.sample(range(1, n + 1), k) for k in (rng.randint(1, 2), rng.randint(3, 4), rng.randint(2, 3))]
+            add((W, mk_query(p, doms, declare="random")))
+    return rng.sample(part, min(len(part), 300)) if quick else part
+
+
+
 # ---------------------------------------------------------------------- C02
 def check_C02(tier, seed):
     run = Run("C02", tier, seed)
@@ -294,6 +316,9 @@ def check_C02(tier, seed):
     # stage B2 on and_/or_ trees that mix the pairs of three variables (partial bindings, projected selections)
     run.mc("MechCheck", "mech-dedup", constants=dict(G="G3v", NV=3, LeafLimit=6, MaxLeaves=3 if quick else 4, MaxNot=0,
                                                       NeedNot=False, **CODE), invariants=("Mech2EqualsSem",))
+    # stage B3 where a conjunction's cache holds one result under a partial and under a full binding (grammar G3w, see C05)
+    run.mc("MechCheck", "mech-partial-bindings", constants=dict(G="G3w", NV=3, LeafLimit=4, MaxLeaves=3 if quick else 4, MaxNot=0,
+                                                                 NeedNot=False, **CODE), invariants=("Mech3EqualsSem",))
     for nv in (2, 3):
         progs = _programs(run, nv, quick, sim_quick=800, sim_full=10000, leaf_quick=9 if nv == 2 else 8,
                           leaf_full=24 if nv == 2 else 16)
@@ -320,6 +345,10 @@ def check_C02(tier, seed):
                                                                           MaxNot=0, NeedNot=False), invariants=("Export", "WellFormed"))
             deep = [p for p in deep if count_nodes(p["cond"], "cmp") == 4]
             progs += rng.sample(deep, min(len(deep), 1500 if quick else 12000))
+        if nv == 3:
+            progs += _partial_binding_programs(run, rng, quick, qc, lambda q: qc.add(
+                q[0], [q[1], copy.deepcopy(q[1])], [dict(drain_ev(1), b3=True), {"op": "cfg", "caching": False},
+                                                    dict(drain_ev(2, eqto=1), b2=True)], dump_graph=True))
         for p in progs:
             for _ in range(1 if quick else 2):
                 W, doms = _world_and_doms(rng, nv, quick)
@@ -959,7 +988,7 @@ def check_C05(tier, seed, extra_programs=None):
     # two-variable programs and for and_/or_ trees over three independent variables with the descent the code has now
     # (every matching branch); with the descent it had before "fix: IndexedCache.retrieve ..." TLC finds the programs
     # that lost rows (the deviation must break the obligation, else the repair is mis-recorded)
-    b3 = dict(MaxNot=1, NeedNot=False, AndLeftTrueNeedsFalseSet=True, ForAllKeepsConditionVars=True)
+    b3 = dict(MaxNot=1, NeedNot=False, AndLeftTrueNeedsFalseSet=True, ForAllKeepsConditionVars=True, ReplayLeavesOutRepeats=True)
     run.mc("MechCheck", "b3-two-variables", constants=dict(b3, G="G12", NV=2, LeafLimit=8 if quick else 16, MaxLeaves=2,
                                                             PreferWildcardB3=False), invariants=("Mech3EqualsSem",))
     run.mc("MechCheck", "b3-three-variables", constants=dict(b3, G="G1x", NV=3, LeafLimit=6, MaxLeaves=3, MaxNot=0,
@@ -967,6 +996,15 @@ def check_C05(tier, seed, extra_programs=None):
     run.mc("MechCheck", "b3-descent-before-the-repair", constants=dict(b3, G="G1x", NV=3, LeafLimit=6, MaxLeaves=3, MaxNot=0,
                                                                       PreferWildcardB3=True), invariants=("Mech3EqualsSem",),
            expect_violation="Mech3EqualsSem", count=False)
+    # and_/or_ trees of four distinct leaves over the variable sets {1,2}, {1,3}, {1}, {1,3}: a conjunction's cache holds a
+    # result stored while variable 3 was unbound next to the same result stored under a value of it, and a later lookup
+    # matches both - replayed once with the code as it is now; replayed twice before "fix: a cached result stored under a
+    # partial binding ...", and TLC finds the program that then returns a row twice
+    run.mc("MechCheck", "b3-partial-bindings", constants=dict(b3, G="G3w", NV=3, LeafLimit=4, MaxLeaves=3 if quick else 4, MaxNot=0,
+                                                               PreferWildcardB3=False), invariants=("Mech3EqualsSem",))
+    run.mc("MechCheck", "b3-replay-before-the-repair", constants=dict(b3, G="G3w", NV=3, LeafLimit=4, MaxLeaves=4, MaxNot=0,
+                                                                       PreferWildcardB3=False, ReplayLeavesOutRepeats=False),
+           invariants=("Mech3EqualsSem",), expect_violation="Mech3EqualsSem", count=False)
     for nv in (1, 2, 3):
         progs = _programs(run, nv, quick, sim_quick=500, sim_full=8000, leaf_quick=10 if nv < 3 else 8,
                           leaf_full=30 if nv == 1 else (24 if nv == 2 else 16))
@@ -981,6 +1019,9 @@ def check_C05(tier, seed, extra_programs=None):
                                                                              NeedNot=False), invariants=("Export", "WellFormed"))
             extra = [p for p in extra if len(normalize(dict(p, vars=[]), 3)["_used"]) == 3]
             progs += rng.sample(extra, min(len(extra), 600 if quick else 20000))
+            # results stored under partial bindings next to results stored under full ones (grammar G3w)
+            progs += _partial_binding_programs(run, rng, quick, qc, lambda q: qc.add(
+                q[0], [q[1], copy.deepcopy(q[1])], _c05_events(rng, b3=True)))
         for p in progs:
             W, doms = _world_and_doms(rng, nv, quick)
             q = mk_query(p, doms, declare="random")
@@ -1135,7 +1176,7 @@ def check_C10(tier, seed):
         # Layer B, stage B4: the mechanism of for_all (per universal value: evaluate, complete, project, de-duplicate,
         # intersect, early exit) yields the denotation's rows on first evaluation and re-evaluation; before
         # "fix: for_all lost solutions ..." it did not (second free variable under the quantifier)
-        b4 = dict(MaxLeaves=2, MaxNot=1, NeedNot=False, AndLeftTrueNeedsFalseSet=True, PreferWildcardB3=False)
+        b4 = dict(MaxLeaves=2, MaxNot=1, NeedNot=False, AndLeftTrueNeedsFalseSet=True, PreferWildcardB3=False, ReplayLeavesOutRepeats=True)
         run.mc("MechCheck", "b4-for_all", constants=dict(b4, G="G3", NV=2, LeafLimit=4 if quick else 12, ForAllKeepsConditionVars=True),
                invariants=("Mech4EqualsSem",))
         run.mc("MechCheck", "b4-second-free-variable", constants=dict(b4, G="G3y", NV=3, LeafLimit=3 if quick else 8,
